@@ -152,6 +152,7 @@ void md5hash::getHash(const u8_t *input)
 void md5hash::getHash(const u8_t *input, u32_t final_loadsize)
 {
   addtotal(final_loadsize);
+  const u64_t bitlen = totalsize; // message length; hashing the extra padding block below must not count
   u8_t* temp = new u8_t[getblen()];
   memset(temp, 0, getblen());
   memcpy(temp, input, final_loadsize);
@@ -163,7 +164,7 @@ void md5hash::getHash(const u8_t *input, u32_t final_loadsize)
   }
   for (int i = 0; i < 8; ++i)
   {
-    temp[56 + i] = (u8_t)(((u64_t)totalsize >> (i << 3)));
+    temp[56 + i] = (u8_t)((bitlen >> (i << 3)));
   }
   getHash(temp);
   delete[] temp;
